@@ -44,6 +44,7 @@ fn main() {
             low_quality: rng.chance(0.7),
             avoid_coincident: kind.is_visual() && own_area_enabled(&cfg),
             low_conf: false,
+            vary_nobj: false,
         };
         let len = if cli.small { 8 } else if long { 200 + rng.usize(if cli.thorough() { 600 } else { 200 }) } else { 40 + rng.usize(60) };
         let h = HistOpts { len, lifecycle_ops: !long, clear_wasted: false, auto_waste_ops: false, batches: kind.is_batch(), empty_calls: false };
